@@ -146,6 +146,10 @@ class Renderer:
             if procs:
                 L.append("  contains")
                 L.append(f"    procedure, nopass :: b{t} => {procs[0]}")
+                if self.rng.random() < 0.6:
+                    # the summary's FIRST link is not a path: a fragment of the page it is shown on, a mail address
+                    first = self.rng.choice(["[top](#text)", "[mail](mailto:someone@example.org)", "[top](#text) [mail](mailto:x@example.org)"])
+                    L.append(f"      !! {first} zq{self.u()}w")
                 L += _doc("      ", self.u(), self.pick(1))
                 if len(procs) > 1:
                     L.append(f"    procedure, nopass :: b{t}x => {procs[1]}")
